@@ -79,6 +79,12 @@ SBrk == [k |-> "brk"]   SCont == [k |-> "cont"]
 SLoop(b) == [k |-> "loop", body |-> b]
 SDbg(e) == [k |-> "dbg", e |-> e]
 
+(* every operator applied to every pair of operand types (typed leaves)     *)
+TypedLeaves == {PStr(Sa), PNum(1), PBool(TRUE), PVar("match"), PVar("matchLength"), PBin("==", PNum(1), PNum(1))}
+TypeTable == {SDbg(PBin(op, l, r)) : op \in AllBinOps, l \in TypedLeaves, r \in TypedLeaves}
+               \cup {SDbg(PUn(u, l)) : u \in PrefixOps, l \in TypedLeaves}
+               \cup {SRet(PBin(op, l, r)) : op \in {"+", "-", "==", "and"}, l \in TypedLeaves, r \in TypedLeaves}
+
 (* variables keep one type: n* numbers, s* strings, b* booleans             *)
 Simple ==
   {SRet(e) : e \in EAll} \cup {SDbg(e) : e \in {PNum(1), PStr(Sa), PBool(TRUE)} \cup EBad}
@@ -96,7 +102,9 @@ Compound ==
     \cup {SLoop(<<SIf(PBool(TRUE), <<t>>, <<u>>)>>) : t \in {SBrk, SCont}, u \in {SBrk, SRet(PBool(TRUE))}}
     \cup {SIf(PBool(TRUE), <<SLoop(<<SBrk>>), t>>, <<>>) : t \in {SBrk, SCont, SRet(PNum(1))}}
 C12_Lists(tier) ==
-  {<<a>> : a \in Simple \cup Compound}
+  {<<a>> : a \in Simple \cup Compound \cup TypeTable}
+    \cup {<<SLoop(<<a, SBrk>>)>> : a \in {SRet(PVar("match")), SRet(PNum(1)), SRet(PBool(TRUE)), SRet(PBin("==", PNum(1), PNum(1)))}}
+    \cup {<<SIf(PBool(TRUE), <<SLoop(<<a>>)>>, <<>>), SRet(PStr(Sa))>> : a \in {SRet(PVar("match")), SRet(PBool(TRUE)), SBrk}}
     \cup {<<a, b>> : a \in Thin \cup {SSet("s", PStr(Sa))}, b \in Simple \cup Compound}
     \cup {<<a, b>> : a \in Compound, b \in Thin}
     \cup {<<SSet("n", PNum(1)), SSet("b", PBool(TRUE)), c>> : c \in Simple \cup Compound}
@@ -121,6 +129,8 @@ C09P_Exprs ==
             \cup {PBin(op, x, PVar("match")) : op \in AllBinOps, x \in X}
             \cup {PBin(op, PVar("match"), PVar("match")) : op \in AllBinOps}
             \cup {PUn(u, PVar("match")) : u \in PrefixOps}
+            \cup {PUn(u, PUn(v, PVar("match"))) : u \in {"head", "tail"}, v \in {"head", "tail"}}
+            \cup {PUn(u, PStr(<<>>)) : u \in {"head", "tail"}} \cup {PUn(u, PBin("+", PVar("nosuchvar"), PStr(<<>>))) : u \in {"head", "tail"}}
             \cup {PBin("/", PNum(10), PBin("-", PVar("matchLength"), PNum(1))), PBin("%", PNum(7), PBin("*", PVar("match"), PNum(1)))}
         : Defined(e)}
 RunBody == <<Loop(1, -1, FALSE, NotLit(<<sp>>))>>
